@@ -107,7 +107,9 @@ impl<Args, T: CallMatch<Args>> ops::DerefMut for RemoveFunctionCallProcessor<Arg
 
 impl<Args, T: CallMatch<Args>> NodeProcessor for RemoveFunctionCallProcessor<Args, T> {
     fn process_statement(&mut self, statement: &mut Statement) {
-        if let Statement::Call(call) = statement {
+        // the replacement can itself be a matching call (`assert(assert(value()))`), which the
+        // visitor will not process again: repeat until it is not
+        while let Statement::Call(call) = statement {
             if call.get_method().is_none()
                 && self
                     .matcher
@@ -121,16 +123,22 @@ impl<Args, T: CallMatch<Args>> NodeProcessor for RemoveFunctionCallProcessor<Arg
                 } else {
                     DoStatement::default().into()
                 };
+            } else {
+                break;
             }
         }
     }
 
     fn process_expression(&mut self, expression: &mut Expression) {
-        if let Expression::Call(call) = expression {
-            if call.get_method().is_none()
+        // same as for statements: the result can be another matching call
+        while let Expression::Call(call) = expression {
+            if !(call.get_method().is_none()
                 && self
                     .matcher
-                    .matches(&self.identifier_tracker, call.get_prefix())
+                    .matches(&self.identifier_tracker, call.get_prefix()))
+            {
+                break;
+            }
             {
                 let insert_globals = self
                     .matcher
